@@ -25,6 +25,7 @@ type SimChain struct {
 	minedAt      []time.Duration
 	subs         []headerSub
 	byScriptHash map[string][]string // electrum script hash -> txids paying to it
+	held         map[string]bool     // txids the miner leaves in the mempool
 }
 
 type Block struct {
@@ -183,8 +184,15 @@ func (c *SimChain) accept(tx *ChainTx) error {
 func (c *SimChain) Mine(n int) {
 	for i := 0; i < n; i++ {
 		h := c.Height() + 1
-		txs := c.mempool
-		c.mempool = nil
+		var txs, keep []string
+		for _, t := range c.mempool {
+			if c.held[t] {
+				keep = append(keep, t)
+			} else {
+				txs = append(txs, t)
+			}
+		}
+		c.mempool = keep
 		for _, t := range txs {
 			c.confAt[t] = h
 		}
@@ -305,4 +313,12 @@ func (c *SimChain) SpendPlain(by int, txid string, vout uint32) {
 	if _, err := c.Broadcast(by, rawHex, "wallet-spend"); err == nil {
 		c.w.Probe("wallet:change-spent")
 	}
+}
+
+// Hold keeps a transaction in the mempool (it is never mined).
+func (c *SimChain) Hold(txid string) {
+	if c.held == nil {
+		c.held = map[string]bool{}
+	}
+	c.held[txid] = true
 }
